@@ -2,7 +2,7 @@
 
     Only statements here; proofs live in Proofs/Handshake.v.  [T] is an arbitrary topic type. *)
 From Coq Require Import List Arith Bool.
-From PV Require Import Model.Handshake Proofs.Handshake.
+From PV Require Import Model.Handshake Proofs.Handshake Oracle.C25 Proofs.HandshakeOracle.
 Import ListNotations.
 
 (** Honest run (canonical schedule): both sides complete, the acceptor outputs exactly the
@@ -137,3 +137,22 @@ Theorem C25_pair_truncation :
     (exists e, sI (pair t (Truncate AtoI 0)) = Fin (Err e)).
 Proof. exact pair_truncation. Qed.
 Print Assumptions C25_pair_truncation.
+
+(** Soundness of the oracle that judges the implementation's result (Oracle/C25.v), and the model
+    itself passes it in every environment (topics = strings). *)
+Theorem C25_oracle_sound :
+  forall r items sf evo res n,
+    Oracle.C25.check_single r items sf evo res n = true ->
+    n <= 1 /\
+    ((clean r items sf evo /\ exists o, Oracle.C25.expected r items sf evo = Some o /\ res = Oracle.C25.IOk o) \/
+     (~ clean r items sf evo /\ res = Oracle.C25.IFail)).
+Proof. exact HandshakeOracle.check_single_sound. Qed.
+Print Assumptions C25_oracle_sound.
+
+Theorem C25_model_passes_oracle :
+  forall (r : role String.string) items sf evo,
+    Oracle.C25.check_single r items sf evo
+      (Oracle.C25.ires_of (result_of (run_side r (mkenv items sf evo))))
+      (Oracle.C25.none_polls (trace (obs_of (run_side r (mkenv items sf evo))))) = true.
+Proof. exact HandshakeOracle.model_passes_oracle. Qed.
+Print Assumptions C25_model_passes_oracle.
